@@ -153,11 +153,9 @@ SubReqs == { << <<FV1, 1>> >>, << <<FV1, 0>>, <<FV2, 2>> >>, << <<FV3, 2>>, <<FV
              << <<FI1, 1>> >>, << <<FV1, 1>>, <<FI2, 0>>, <<FV2, 2>> >>, << <<FV2, 3>> >>, << <<FV1, 3>>, <<FV4, 1>> >>,
              << <<FV1, 0>>, <<FV2, 1>>, <<FV3, 2>>, <<FV4, 0>>, <<FV5, 1>> >>,
              << <<FV1, 2>>, <<FV2, 2>>, <<FV3, 2>>, <<FV4, 2>>, <<FV5, 2>>, <<FI3, 1>>, <<FV1, 0>>, <<FV2, 0>>, <<FV3, 1>> >>,
-             << <<FL, 1>>, <<FV1, 2>> >>, << <<FV2, 1>>, <<FL, 0>>, <<FV3, 1>> >>,
-             \* 130 entries: the SUBACK's remaining length needs two bytes
-             [i \in 1..130 |-> <<IF i % 2 = 0 THEN FV1 ELSE FV5, i % 3>>] }
+             << <<FL, 1>>, <<FV1, 2>> >>, << <<FV2, 1>>, <<FL, 0>>, <<FV3, 1>> >> }
 UnsubReqs == { <<FV1>>, <<FV1, FV2>>, <<FV3, FV3>>, <<FV1, FV2, FV3, FV4, FV5>>, <<FV5, FV4, FV3, FV2, FV1, FI1, FV1, FV2, FV3>>, <<FI2>>,
-               <<FL, FV1>>, <<FL, FV2, FV3>>, <<FV1, FL>>, [i \in 1..130 |-> IF i % 2 = 0 THEN FV1 ELSE FV5] }
+               <<FL, FV1>>, <<FL, FV2, FV3>>, <<FV1, FL>> }
 SubsInit == BothUp(SNames)
 SubsNext == steps < MaxSteps /\
   \/ \E c \in {c1, c2} : Connect(c, KOf(c), TRUE, NoWill)
@@ -165,6 +163,14 @@ SubsNext == steps < MaxSteps /\
   \/ \E r \in UnsubReqs : Unsubscribe(c1, 3, r)
   \/ \E t \in SNames : Publish(c2, t, 1, FALSE, "x", 9, FALSE)
 SubsSpec == SubsInit /\ [][SubsNext]_vars
+\* requests with 130 entries (the SUBACK's remaining length needs two bytes; so does the requests' own), next to small ones
+BigSub == [i \in 1..130 |-> <<IF i % 2 = 0 THEN FV1 ELSE FV5, i % 3>>]
+BigUnsub == [i \in 1..130 |-> IF i % 2 = 0 THEN FV1 ELSE FV5]
+SubsBigNext == steps < MaxSteps /\
+  \/ Subscribe(c1, 258, BigSub) \/ Unsubscribe(c1, 3, BigUnsub)
+  \/ Subscribe(c1, 1, << <<FV1, 1>> >>) \/ Unsubscribe(c1, 3, <<FV5>>)
+  \/ \E t \in {<<"a">>, <<"b">>} : Publish(c2, t, 1, FALSE, "x", 9, FALSE)
+SubsBigSpec == SubsInit /\ [][SubsBigNext]_vars
 \* all paths of subscribe / unsubscribe requests and ring churn on one connection, then one probe publish from another:
 \* what a request established stays as it is, whatever the connection sends afterwards
 SubsLastMut == \/ Churn(c1)
@@ -278,7 +284,7 @@ Sess1LastSpec == SessInit /\ [][Sess1LastNext]_vars
 ANames == {<<"a">>}
 RefuseKinds == {"level", "name", "idlong", "idbad", "idempty0", "reserved", "willflags", "notconnect-ping",
                 "notconnect-sub", "notconnect-pub", "truncated", "truncated2", "garbage", "badflags",
-                "v3-truncated10", "v3-truncated11"}
+                "v3-truncated10", "v3-truncated11", "remlen5"}
 AdmitInit == Witness(ANames, c2, k2, {<<"#">>}, 1)
 AdmitNext == steps < MaxSteps /\
   \/ \E kind \in RefuseKinds, follow \in {"", "a"} : Refuse(c1, kind, follow)
